@@ -244,6 +244,7 @@ type poolDef struct {
 	hosts    []string
 	k        int
 	opts     []int // slash options explored per pattern
+	prof     rsx.Profile
 }
 
 func pools(quick bool) []poolDef {
@@ -255,10 +256,10 @@ func pools(quick bool) []poolDef {
 		k = 2
 	}
 	ps := []poolDef{
-		{"flat", flatQ, paths3, []string{""}, k, nil},
+		{"flat", flatQ, paths3, []string{""}, k, nil, rsx.Profile{}},
 	}
 	mid := rsx.GenPatterns([]string{"a", "a{}", "a*{}", "*{}"}, 2, true, "")
-	ps = append(ps, poolDef{"mid", mid, append(rsx.GenPaths([]string{"a", "ab", "aa", "b"}, 3), unclean...), []string{""}, k, nil})
+	ps = append(ps, poolDef{"mid", mid, append(rsx.GenPaths([]string{"a", "ab", "aa", "b"}, 3), unclean...), []string{""}, k, nil, rsx.Profile{}})
 	var hostPats []string
 	for _, h := range []string{"a.b", "{h}.b", "a.{t}"} {
 		for _, p := range []string{"/", "/a", "/a/", "/{p0}", "/{p0}/", "/*{c0}", "/*{c0}/"} {
@@ -266,7 +267,10 @@ func pools(quick bool) []poolDef {
 		}
 	}
 	hostPats = append(hostPats, "/", "/a", "/a/", "/{p0}", "/{p0}/", "/*{c0}", "/a/b", "/a/b/")
-	ps = append(ps, poolDef{"host", hostPats, rsx.GenPaths([]string{"a", "b"}, 2), []string{"", "a.b", "x.b", "a.b:80", "c.d"}, k, nil})
+	ps = append(ps, poolDef{"host", hostPats, rsx.GenPaths([]string{"a", "b"}, 2), []string{"", "a.b", "x.b", "a.b:80", "c.d"}, k, nil, rsx.Profile{}})
+	// router-wide trailing-slash modes (routes inherit them)
+	ps = append(ps, poolDef{name: "flat-global-ignore", patterns: flatQ, paths: paths3, hosts: []string{""}, k: k, opts: []int{rsx.SlashNone}, prof: rsx.Profile{Slash: rsx.SlashIgnore}},
+		poolDef{name: "flat-global-redirect", patterns: flatQ, paths: paths3, hosts: []string{""}, k: k, opts: []int{rsx.SlashNone}, prof: rsx.Profile{Slash: rsx.SlashRedirect}})
 	// depth-3 patterns: a backtracked walk can meet a second trailing-slash candidate below a parameter
 	deep := rsx.GenPatterns([]string{"a", "{}"}, 3, true, "")
 	if quick {
@@ -276,7 +280,7 @@ func pools(quick bool) []poolDef {
 	}
 	if !quick {
 		core := append([]string{"/"}, rsx.GenPatterns([]string{"a", "{}", "*{}"}, 2, true, "")...)
-		ps = append(ps, poolDef{"core4", core, rsx.GenPaths([]string{"a", "b"}, 3), []string{""}, 4, nil})
+		ps = append(ps, poolDef{"core4", core, rsx.GenPaths([]string{"a", "b"}, 3), []string{""}, 4, nil, rsx.Profile{}})
 	}
 	return ps
 }
@@ -311,7 +315,7 @@ func runPool(c *mc.Ctx, r *mc.Result, pd poolDef) {
 			set = append(set, specs[x])
 		}
 		full := expand(set)
-		e, err := rsx.Build(full, rsx.Profile{})
+		e, err := rsx.Build(full, pd.prof)
 		if err != nil {
 			r.Count("sets_rejected_by_router", 1)
 			return
@@ -332,7 +336,7 @@ func runPool(c *mc.Ctx, r *mc.Result, pd poolDef) {
 						r.DistinctNontrivial++
 					}
 					if class != "" {
-						r.Violate("rsx", class, msg, Case{Set: full, Req: rq})
+						r.Violate("rsx", class, msg, Case{Set: full, Prof: pd.prof, Req: rq})
 					}
 				}
 			}
